@@ -909,6 +909,33 @@ def newcomer_groups(sess, rng, kinds=KINDS):
                         sess.predict(op, mk, make_teams(mk, sv), group=gid, role="scaled", aux=[k])
 
 
+def widerange_perm_groups(sess, rng, prop="C04", kinds=KINDS):
+    """Stratified: for every model a three- or four-team game whose outcome values span more than 2^53 (a score of 1e17 beside
+    scores of 1, 2, 3; a rank of 1e18 beside halves; ints beyond 2^53 beside small floats) - written as scores and as ranks -
+    in every listing of the teams.  Any arithmetic on the values (max - score, differences, float keys) collapses or reorders
+    the small ones; the weak order does not."""
+    import itertools
+    for kind in kinds:
+        n = rng.choice([3, 4])
+        encs = [("scores", [1e17] + [float(n - i) for i in range(1, n)]),
+                ("scores", [float(n - i) for i in range(n - 1)] + [-1e17]),
+                ("ranks", [0.5 * i for i in range(n - 1)] + [1e18]),
+                ("ranks", [-(10 ** 17)] + [float(i) for i in range(1, n)]),
+                ("scores", [2 ** 60 + 1, 2 ** 60, 2.5, 1.5][:n])]
+        for sel, vec in encs:
+            sess.reset()
+            mh = sess.model(kind)
+            vals = random_vals(rng, [rng.randint(1, 2) for _ in range(n)], BETA0, True)
+            gid = GID.new(prop)
+            sess.rate(mh, make_teams(mh, vals), group=gid, role="base", **{sel: list(vec)})
+            for tp in itertools.permutations(range(1, n + 1)):
+                if list(tp) == list(range(1, n + 1)):
+                    continue
+                pv = [vals[tp[k] - 1] for k in range(n)]
+                aux = [list(tp), [list(range(1, len(t) + 1)) for t in pv]]
+                sess.rate(mh, make_teams(mh, pv), group=gid, role="perm", aux=aux, **{sel: [vec[tp[k] - 1] for k in range(n)]})
+
+
 def effopts_groups(sess, rng, count, kinds=KINDS):
     """C15: per-call tau / limit_sigma against model-level settings."""
     for _ in range(count):
